@@ -132,7 +132,7 @@ TraceMatchType ==
 TraceMatchClass ==
   /\ Ev.ev = "MatchClass"
   /\ \A i \in 1 .. Len(Ev.q) :
-       Rule(l, "MatchMatrix", Ev.q[i][2] = MatchQClass(Ev.c, Ev.q[i][1]), <<"class", Ev.c, Ev.q[i], Ev.how>>)
+       Rule(l, "MatchMatrix", Len(Ev.q[i]) = 2 /\ Ev.q[i][2] = MatchQClass(Ev.c, Ev.q[i][1]), <<"class", Ev.c, Ev.q[i], Ev.how>>)
 
 -----------------------------------------------------------------------------
 (* C06: one event = one buffer e.b, decoded by the crate at each start offset *)
@@ -211,7 +211,8 @@ HeapBoundOf(n) == 1024 * n + 65536
 AfterNameOK(c, r) ==
   IF r.rd = <<>> \/ r.type = 41 THEN TRUE
   ELSE LET sc == Schema(r.type)
-           ks == {i \in 1 .. Len(sc) : sc[i].t = "N"} IN
+           \* (the gateway of an IPSECKEY record is a name when the gateway type says so)
+           ks == {i \in 1 .. Len(sc) : sc[i].t = "N" \/ (sc[i].t = "GW" /\ Len(r.rd) >= 2 /\ r.rd[2] = <<3>>)} IN
        IF ks = {} THEN TRUE
        ELSE LET k == CHOOSE i \in ks : \A j \in ks : i <= j IN
             Len(c.rd) = Len(r.rd) /\ \A j \in (k + 1) .. Len(r.rd) : c.rd[j] = r.rd[j]
@@ -422,7 +423,8 @@ TraceValueCmp ==
   /\ Rule(l, "OwnEqual",
           Ev.how \in {"own", "clone"} => (Ev.a = Ev.b /\ Ev.ba = Ev.bb /\ (Ev.haseq => Ev.eq)),
           <<Ev.kind, Ev.how, "proj-equal", Ev.a = Ev.b, "bytes-equal", Ev.ba = Ev.bb, "eq", Ev.eq>>)
-  /\ Rule(l, "EqSpec", Ev.haseq => (Ev.eq = SpecEq(Ev.kind, Ev.a, Ev.b)),
+  \* (pairs that hold the same members in a different order: what equality says about them is the crate's choice)
+  /\ Rule(l, "EqSpec", (Ev.haseq /\ Ev.how # "reordered") => (Ev.eq = SpecEq(Ev.kind, Ev.a, Ev.b)),
           <<Ev.kind, Ev.how, "eq", Ev.eq, "spec", SpecEq(Ev.kind, Ev.a, Ev.b)>>)
   /\ Rule(l, "EqHash", (Ev.haseq /\ Ev.eq /\ Ev.ha # <<>>) => Ev.ha = Ev.hb,
           <<Ev.kind, Ev.how, "equal values hash differently">>)
@@ -475,6 +477,10 @@ TraceNetRun ==
   \* the one-shot resolver resolving a name while the hostile datagrams arrive: any outcome but a panic
   /\ Rule(l, "LoopAlive", \A i \in 1 .. Len(Ev.resolver) : Ev.resolver[i][1] # "panic",
           <<"one-shot resolver panicked", Ev.resolver>>)
+  \* every reply the real services put on the wire for a probe (ordinary ones and the deliberately big ones: a
+  \* question repeated until the reply exceeds 9000 bytes) is a parseable message: <<probe id, length, parses>>
+  /\ Rule(l, "ReplyParses", \A i \in 1 .. Len(Ev.replies) : Ev.replies[i][3],
+          <<"reply on the wire does not parse", [i \in 1 .. Len(Ev.replies) |-> <<Ev.replies[i][1], Ev.replies[i][2], Ev.replies[i][3]>>]>>)
 
 (* SvcbApi (C10): the typed SvcParam setters of SVCB / HTTPS (RFC 9460 section 7, 14.3.2).          *)
 (* e.ops = the calls, e.params = iter_params() afterwards, e.getters = get_param(k) for some keys,   *)
@@ -636,7 +642,8 @@ TraceApi ==
      /\ Rule(l, "NoPanic", Len(Ev.states) = Len(Ev.hist), <<"api call panicked at", Len(Ev.states)>>)
      /\ \A i \in 1 .. Len(Ev.states) :
           Rule(l, "ApiStep", Ev.states[i] = model[i],
-               <<"call", i, Ev.hist[i].op, "field", IF DOMAIN Ev.states[i] = DOMAIN model[i] THEN PktDiff(Ev.states[i], model[i]) ELSE "panic">>)
+               <<"call", i, Ev.hist[i].op, "field", IF DOMAIN Ev.states[i] = DOMAIN model[i] THEN PktDiff(Ev.states[i], model[i])
+                                                   ELSE IF "refused" \in DOMAIN Ev.states[i] THEN "refused" ELSE "panic">>)
      \* C08 after every call of the history (a packet that came from the parser and was then edited included):
      \* what the real packet serialises to starts with the id and the flag word of the model's state
      /\ \A i \in 1 .. Len(Ev.wire) :
